@@ -14,14 +14,14 @@ def rules_for(prop):
         return g
     table = {
         "C01": [ag.rule_ag1, ag.rule_ag2, ag.rule_ag3_small, scan.rule_sc1, tm.rule_tm4, seq.rule_fw2],
-        "C02": st.RULES + [ms.rule_ms],
+        "C02": st.RULES + [ms.rule_ms, tm.rule_tm5],
         "C03": mx.RULES,
         "C04": [named(grp.rule_eq1, files=("rxsci/operators/group_by.py", "rxsci/state/memory_store.py", "rxsci/state/store.py",
                                            "rxsci/operators/multiplex.py"), min_instances=12), named(grp.rule_fw1, heads=("group_by",)), grp.rule_fl1,
                 named(lv.rule_lv, only=("group_by_mux._group_by.on_subscribe",))],
         "C05": [grp.rule_roll, st.rule_st2_3_4, st.rule_st6,
                 named(lv.rule_lv, only=("roll_mux._roll.subscribe", "roll_mux._roll_count.subscribe"))],
-        "C08": [tm.rule_tm123, tm.rule_tm4, st.rule_st5, mx.rule_mx7],
+        "C08": [tm.rule_tm123, tm.rule_tm4, tm.rule_tm5, st.rule_st5, mx.rule_mx7],
         "C09": scan.RULES,
         "C10": seq.RULES + [named(grp.rule_eq1, files=("rxsci/operators/distinct.py", "rxsci/operators/distinct_until_changed.py",
                                                        "rxsci/operators/first.py", "rxsci/operators/take.py", "rxsci/operators/last.py",
@@ -80,7 +80,7 @@ EXPLANATION = {
            "stored window start and the inactive one the stored last timestamp; DP-5 bookkeeping of both timestamps; ORD-1 event order per "
            "include_closing_item and closing_mapper consulted only when not expired; FW-1; LV. Not decided: arithmetic on timestamps.",
     "C08": _COMMON + "Decided clauses: TM-1 connect() after all len(sources) branches are subscribed; TM-2/3 one published connectable "
-           "shared by all branches; TM-4 join skeleton per mode over the key's slice of n slots; ST-5 join table reset; MX-7 lifecycle "
+           "shared by all branches; TM-4 join skeleton per mode over the key's slice of n slots; TM-5 table growth to (key[0]+1)*n; ST-5 join table reset; MX-7 lifecycle "
            "de-duplication; AG-3 mux and plain joins agree. Not decided: behaviour of the branches themselves.",
     "C09": _COMMON + "Decided clauses: SD-1 the seed reaches accumulator/terminator/state/output only through seed() or deepcopy(seed) "
            "(13 scan call sites classified); SC-1 fold skeleton per (reduce, terminator); AG-3 scan_mux = scan_obs skeletons; PU-1 "
